@@ -1,6 +1,6 @@
 ----------------------------- MODULE MC_Lifetimes -----------------------------
 EXTENDS Lifetimes, Json
-AllParamKinds == {"opq", "optopq", "slice", "opqlt", "st1", "st2", "st2b", "nst2", "stv"}
+AllParamKinds == {"opq", "optopq", "slice", "opqlt", "st1", "st2", "st2b", "nst2", "stv", "pself"}
 EmitGetters == PrintT(<<"GETTERS", ToJson([k \in DOMAIN StructFields |-> [l \in {"p", "q"} |-> FieldsFor(k, l)]])>>)
 AllRetKinds == {"ropq", "roptopq", "rslice", "rbox", "rst1", "rst2", "ropqlt"}
 SmallParamKinds == {"opq", "slice", "opqlt", "st2b"}
